@@ -973,11 +973,10 @@ Proof.
   destruct k as [a cols| | | |]; try discriminate.
   repeat (apply andb_prop in H; destruct H as [H ?]).
   rename H into Ha, H0 into Hneed, H1 into Hnn, H2 into Hinj, H3 into Hsingle.
-  apply negb_true_iff in Ha. subst a.
   destruct (filter is_pk (t_constraints t)) as [|k' [|]] eqn:Efp; try discriminate.
   apply constraint_eqb_true in Hsingle. subst k'.
   pose proof (find_name _ _ _ Hf) as Hname.
-  set (k := CPrimaryKey false cols) in *.
+  set (k := CPrimaryKey a cols) in *.
   set (n := tn +++ "_pkey").
   set (keep := fun c => negb (constraint_eqb c k)).
   set (t' := mkTable (t_name t) (t_description t) (clear_inline tn k (t_columns t)) (filter keep (t_constraints t))).
@@ -1003,7 +1002,7 @@ Proof.
   { unfold keep. apply first_pk_only_nopk. exact (filter_pk_removed _ k Efp). }
   assert (Hpk' : pk_of t' = None).
   { unfold pk_of, t', keep. cbn [t_constraints]. now rewrite (find_pk_nil _ (filter_pk_removed _ k Efp)). }
-  assert (Hpk : pk_of t = Some (false, cols)).
+  assert (Hpk : pk_of t = Some (a, cols)).
   { unfold pk_of. now rewrite (find_pk_filter' _ _ Efp). }
   assert (Hcat : table_cat t' = mkPt (t_name t) (map (col_cat t) (t_columns t))
                                      (bt_remove n (pt_cons (table_cat t))) (bt_remove n (pt_idx (table_cat t)))).
@@ -1016,7 +1015,13 @@ Proof.
       + apply map_core_col_cat, clear_inline_core.
       + apply map_ext_in. intros x Hx. unfold col_cat. rewrite Hpk', Hpk.
         rewrite forallb_forall in Hnn. specialize (Hnn x Hx).
-        destruct (mem_str (c_name x) cols); cbn [negb orb] in *; [now rewrite Hnn|now rewrite orb_false_r].
+        assert (Hax : a = true -> (mem_str (c_name x) cols && supports_auto_increment (c_type x))%bool = false).
+        { intros ->. cbn [negb orb] in Ha. apply negb_true_iff in Ha.
+          destruct (mem_str (c_name x) cols && supports_auto_increment (c_type x))%bool eqn:E; [|reflexivity]. exfalso.
+          assert (existsb (fun x => (mem_str (c_name x) cols && supports_auto_increment (c_type x))%bool) (t_columns t) = true);
+            [|congruence]. apply existsb_exists. eauto. }
+        destruct a; [rewrite (Hax eq_refl)|];
+          (destruct (mem_str (c_name x) cols); cbn [negb orb] in *; [now rewrite Hnn|now rewrite orb_false_r]).
     - rewrite bt_remove_of_list. f_equal. apply flat_map_filter_key. intros x Hx kv Hkv. apply (Hkey x Hx).
       unfold names_of. apply in_or_app. left. rewrite <- Hname. now apply in_map.
     - rewrite bt_remove_of_list. f_equal. apply flat_map_filter_key. intros x Hx kv Hkv. apply (Hkey x Hx).
